@@ -11,7 +11,7 @@ from fractions import Fraction
 import core
 import corecheck
 import gen
-from common import build_bins, child_env, load_known, BUILD
+from common import build_bins, child_env, load_known, run_harness, BUILD
 
 SITE_NAMES = {1: "GEZ + GEZ", 2: "GEZ * GEZ", 3: "GEZ.div(Pos)", 4: "Pos * Pos", 5: "Pos / Pos", 6: "Neg * Neg",
               7: "Neg / Neg", 8: "Neg.mul_pos", 9: "ratio.to_posdecimal", 10: "ratio.to_gezdecimal",
@@ -262,6 +262,51 @@ def run(res, ctx):
                     else:
                         res.violation("failing-input", "%s on a malformed %s: %s %s" % (name, fn, status, info[:300]),
                                       {"program": name, "file": fn, "input_bytes_hex": content.hex()[:4000], "actual_impl": info})
+        # structured Questrade sheets with damaged cells (non-ASCII dates and numbers, wrong cell types, blanks,
+        # huge and non-finite numbers) through sheet_to_txs of the library: a diagnostic per row, never a panic
+        try:
+            import common as _common
+            import props.c18 as c18
+            qexe, _qlog = _common.build_harness("questrade")
+            WEIRD = [{"s": "2023\u5e741\u67085\u65e5"}, {"s": "\uff12\uff10\uff12\uff13-01-05"}, {"s": "2023-01-0\u00e9"}, {"s": ""},
+                     {"s": "\u00e9"}, {"s": "\u00a0"}, {"s": "1,234.50"}, {"s": "\u22125"}, {"f": "1e300"}, {"f": "inf"}, {"f": "NaN"},
+                     {"f": "-0"}, {"i": 2 ** 62}, {"i": -1}, {"b": True}, None, {"s": "x" * 300}, {"s": "2023-13-45"}, {"s": "2023-1-5"},
+                     {"s": "12/31/2023 12:00:00 AM"}, {"s": "2023-01-05 \u00e0 10h"}, {"s": "\U0001F4B0\U0001F4B0\U0001F4B0\U0001F4B0"},
+                     {"s": "20230105"}, {"s": "0.1.2"}, {"s": "1e5"}, {"s": "--1"}, {"s": "+"}]
+            qcases = []
+            for k in range(60 if tier == "quick" else 600):
+                acts = c18.gen_activities(rng, well_formed=(rng.random() < 0.6))
+                sheet = c18.build_sheet(acts, c18.gen_style(rng), c18.gen_layout(rng))
+                if len(sheet) < 2:
+                    continue
+                for _ in range(rng.choice([1, 1, 2, 4])):
+                    r_ = rng.randrange(0 if rng.random() < 0.1 else 1, len(sheet))
+                    c_ = rng.randrange(len(sheet[r_]))
+                    sheet[r_] = list(sheet[r_])
+                    sheet[r_][c_] = rng.choice(WEIRD)
+                qcases.append({"cells": sheet, "sort": rng.random() < 0.8})
+            # every odd value once in each cell the converter reads, of a well-formed two-row export
+            lay = c18.canonical_layout()
+            base_acts = [a for a in c18.gen_activities(rng, well_formed=True)][:2]
+            if base_acts:
+                for ci, col in enumerate(lay):
+                    if col[1] not in c18.USED:
+                        continue
+                    for w in WEIRD:
+                        sheet = [list(r) for r in c18.build_sheet(base_acts, {"num": "float", "acct_int": False, "empty_str": False}, lay)]
+                        sheet[1][ci] = w
+                        qcases.append({"cells": sheet, "sort": True})
+            if qexe is not None and qcases:
+                for qc, o in zip(qcases, run_harness(qexe, "qt_sheet", qcases)):
+                    st["evaluations"] += 1
+                    st["questrade-sheet-" + str(o.get("status"))] += 1
+                    if o.get("status") == "panic":
+                        res.violation("failing-input", "Questrade sheet with a damaged cell: panic %s" % str(o.get("panic"))[:300],
+                                      {"program": "sheet_to_txs (tx-export-convert)", "cells": qc["cells"], "actual_impl": o.get("panic")})
+            else:
+                st["questrade-sheets-unavailable"] += 1
+        except ImportError:
+            st["questrade-sheets-unavailable"] += 1
         # structured documents of the E*TRADE front end (rendered by the C19 generators: RSU / ESPP / ESO
         # confirmations with one to three grants, pre- and post-2023 trade confirmations), then damaged the
         # way a text extraction damages them: lines dropped, duplicated, swapped, cut, a section repeated
